@@ -11,13 +11,23 @@ CFG = {
         "Leptos.View.C03_rebuild_seq",
         "Leptos.View.C03_unmount_exact",
         "Leptos.View.C03_any_type_change",
+        "Leptos.View.C03_build_mount_attrvalues",
+        "Leptos.View.C03_rebuild_eq_fresh_attrvalues",
+        "Leptos.View.C03_rebuild_seq_attrvalues",
+        "Leptos.View.AttrsFresh_kv",
+        "Leptos.View.AttrsRebuild_kv",
+        "Leptos.View.Rep.serSim",
         "Leptos.View.C03_rebuild_eq_fresh_stmt_false",
         "Leptos.View.C03_class_overwrite_witness",
-        "Leptos.View.C03_any_identical_value_witness",
         "Leptos.View.C03_style_overwrite_witness",
-        "Leptos.View.C03_toggle_rename_witness",
-        "Leptos.View.C03_style_rename_witness",
         "Leptos.View.C03_dup_item_witness",
+        "Leptos.View.C03_dup_item_rename_witness",
+        "Leptos.View.C03_any_identical_value_fixed",
+        "Leptos.View.C03_any_identical_value_witness_old",
+        "Leptos.View.C03_toggle_rename_fixed",
+        "Leptos.View.C03_toggle_rename_witness_old",
+        "Leptos.View.C03_style_rename_fixed",
+        "Leptos.View.C03_style_rename_witness_old",
         "Leptos.View.rebuild_spec",
         "Leptos.View.build_spec",
         "Leptos.View.replace_spec",
@@ -60,11 +70,16 @@ CFG = {
                 "(C03_rebuild_eq_fresh, C03_update_eq_fresh), for any list of rebuilds (C03_rebuild_seq); unmount leaves exactly pre ++ post "
                 "(C03_unmount_exact); an AnyView of another type is replaced in position by fresh nodes (C03_any_type_change). PROVED FRAGMENT: "
                 "every structural combinator (text, (), elements incl. void, tuples, Option, Either/EitherOfN, Vec, AnyView) with static "
-                "string attributes, each key once (decidable predicates View.inFragment / Ty.inStage1) = stages 1 and 3 of DESIGN C03. NOT "
-                "PROVED: stage 2 (Option/bool attribute values, class, style items) and stage 4 (keyed, not in the Lean View type). The full "
+                "string attributes, each key once (decidable predicates View.inFragment / Ty.inStage1; exact serialisation) = stages 1 and 3 "
+                "of DESIGN C03, and stage 2a (C03_*_attrvalues, View.inFragment2): String / Option<String> / bool attribute values and one "
+                "whole-value class (String or Option<String>) and style string per element, every key once, attributes compared as a map. NOT "
+                "PROVED: stage 2b (item-wise class:name=bool / style:(name,value) items, several writers of class or style on one element) "
+                "and stage 4 (keyed, not in the Lean View type). The full "
                 "statement over every attribute shape (C03_rebuild_eq_fresh_stmt) is FALSE of the code: kernel-checked refutation "
-                "C03_rebuild_eq_fresh_stmt_false plus one witness per finding class F-C03-1..5 (class-overwrite incl. the AnyView "
-                "identical-value case, style-overwrite, toggle-rename, style-rename, dup-item), each replayed on the real tachys. Tied to "
+                "C03_rebuild_eq_fresh_stmt_false plus one witness per remaining finding class (F-C03-1 class-overwrite, F-C03-2 style-overwrite, "
+                "F-C03-5 dup-item), each replayed on the real tachys; F-C03-1 (AnyView identical-value part), F-C03-3 toggle-rename and "
+                "F-C03-4 style-rename are repaired in /repo (fix: commits, hooks/fix-c03-{1,3,4}.patch), the model follows the repaired code "
+                "and keeps the pre-repair rebuildAttrOld with regression witnesses (*_witness_old / *_fixed). Tied to "
                 "the code by a differential run of the real Render/Mountable impls under the native DOM against the compiled model "
                 "(serialised children with node identity and per-node mutation counters), which also covers the unproved attribute shapes.",
         "design_ref": "DESIGN.md §7 C03",
